@@ -1,7 +1,7 @@
 (* C09 - property theorems only.  Each is closed by [exact] of a lemma of the
    proof files (or is a concrete witness checked by computation) and is
    followed by Print Assumptions. *)
-From VF.C09 Require Import Model ProofsMaps ProofsA ProofsV Proofs.
+From VF.C09 Require Import Model ProofsMaps ProofsA ProofsV Proofs ProofsInv ProofsDisc.
 Local Open Scope N_scope.
 
 (* The property at full strength: for every history [pre] run on a fresh
@@ -33,26 +33,53 @@ Definition C09_full (fx : fixes) : Prop :=
    (C09_create_over_removed_validator_before_fix). *)
 
 (* 1. MAIN THEOREM, the code as it is now (all repairs: fe4c1ff, 877ecbf,
-   464c034).  For every history [pre], every snapshot taken after it and every
-   list of calls [ops] that does not panic, keeps the snapshot valid and consists
-   of [good_op FX_NOW] calls (Proofs.v), the revert to the snapshot does not fail
-   and restores the state.  [good_op FX_NOW] admits every modelled call except
-   Prepare (not journalled by design) and a zero-value AddBalance to the RIPEMD
-   precompile (designed exception), with these side conditions on validator
-   calls (ProofsV.v): no lazy trie load inside the window; CreateValidator on a
-   new address or over a removed record of the live map (the index may or may
-   not hold the address) with non-negative statistics; UpdateValidator /
-   RemoveValidator on the live record, which is in the (ascending) index, while
-   the statistics are non-negative, counters < 2^64 and cover that record - a
-   second RemoveValidator is refused by the code; RemoveWithdrawRecords with
-   distinct positions. *)
+   464c034, 0cdbb3b, af1e035).  For every history [pre] run on a fresh StateDB,
+   every snapshot taken after it and every list of calls [ops] that does not
+   panic and keeps the snapshot valid, the revert to the snapshot does not fail
+   and restores the state.  The only hypotheses left are the callers'
+   discipline (ProofsDisc.v):
+     [disciplined], everywhere: CreateValidator / UpdateValidator pass a stake
+       and a token that are not negative, RemoveWithdrawRecords distinct
+       positions;
+     [window_op], inside the window in addition: no Prepare (it is not
+       journalled by design and belongs before the transaction's snapshot) and
+       no zero-value AddBalance to the RIPEMD precompile (designed exception,
+       C09_ripemd_touch_exception).
+   The validator side conditions of ProofsV.v (statistics non-negative and
+   covering the record, record in the ascending index, no lazy trie load, ...)
+   are no longer hypotheses: they follow from the invariant [VI] of ProofsInv.v,
+   which holds in every state of a disciplined history, including every state a
+   revert goes back to (theorem 1b). *)
 Theorem C09_revert_restores :
+  forall pre s0 ops s,
+    run FX_NOW pre init = Some s0 -> forallb disciplined pre = true ->
+    window_gen FX_NOW (fun _ o => window_op o) (next_rev s0) ops (fst (snapshot s0)) s ->
+    exists s', revert_to_snapshot FX_NOW s (next_rev s0) = Some s' /\ restored s' s0.
+Proof. exact revert_restores_disciplined. Qed.
+Print Assumptions C09_revert_restores.
+
+(* 1b. The invariant: in every state of a disciplined history the statistics are
+   the sum of the contributions of the existing validator records, stakes and
+   tokens are non-negative, the (ascending) index holds every existing
+   validator, the live map has one entry per address keyed by the record's own
+   address, and the validator trie agrees with the live map outside the
+   addresses still marked dirty (so a read never has to load from the trie
+   something the live map does not have). *)
+Theorem C09_validator_invariant :
+  forall ops s, run FX_NOW ops init = Some s -> forallb disciplined ops = true -> VI (sv s).
+Proof. exact validator_invariant_reachable. Qed.
+Print Assumptions C09_validator_invariant.
+
+(* 1c. The statement under explicit side conditions ([good_op], Proofs.v), from
+   which 1 is derived; it does not need the history before the snapshot to be
+   disciplined. *)
+Theorem C09_revert_restores_under_side_conditions :
   forall pre s0 ops s,
     run FX_NOW pre init = Some s0 ->
     window FX_NOW (next_rev s0) ops (fst (snapshot s0)) s ->
     exists s', revert_to_snapshot FX_NOW s (next_rev s0) = Some s' /\ restored s' s0.
 Proof. exact (revert_restores_reachable FX_NOW). Qed.
-Print Assumptions C09_revert_restores.
+Print Assumptions C09_revert_restores_under_side_conditions.
 
 (* 1'. Regression variants: the same statement for the code before the repairs,
    with the narrower [good_op]: before fe4c1ff RemoveValidator and
@@ -279,3 +306,16 @@ Proof.
   eexists; eexists; split; [vm_compute; reflexivity|]. repeat split; vm_compute; reflexivity.
 Qed.
 Print Assumptions C09_storage_layers_across_transactions.
+
+(* non-vacuity of theorem 1: the histories of C09_nonvacuous_window and
+   C09_nonvacuous_remove_window meet the callers' discipline alone *)
+Example C09_nonvacuous_discipline :
+  forallb disciplined nv_pre = true /\
+  window_gen FX_NOW (fun _ o => window_op o) (next_rev nv_s0) nv_ops (fst (snapshot nv_s0)) nv_s /\
+  forallb disciplined nv3_pre = true /\
+  window_gen FX_NOW (fun _ o => window_op o) (next_rev nv3_s0) nv3_ops (fst (snapshot nv3_s0)) nv3_s.
+Proof.
+  split; [vm_compute; reflexivity|]. split; [apply window_run_ok; vm_compute; reflexivity|].
+  split; [vm_compute; reflexivity|]. apply window_run_ok; vm_compute; reflexivity.
+Qed.
+Print Assumptions C09_nonvacuous_discipline.
